@@ -36,6 +36,12 @@ type EngineCase struct {
 	Deliveries []Delivery `json:"deliveries"`
 	CancelAtNs int64      `json:"cancel_at_ns,omitempty"`
 	CancelDL   bool       `json:"cancel_deadline,omitempty"` // see Scenario.CancelDL
+	// RealRTT: the driver reports what a real one would: the time from the send of that TTL's probe to the moment the
+	// reply is handed over (a reply read late then carries an RTT above the per-hop timeout); otherwise a few microseconds
+	RealRTT bool `json:"real_rtt,omitempty"`
+	// SlowTTL/SlowNs: the send of this one TTL takes that long (a full socket buffer once), all others SendLagNs
+	SlowTTL int   `json:"slow_ttl,omitempty"`
+	SlowNs  int64 `json:"slow_ns,omitempty"`
 	// SendLagNs: every SendProbe takes this long; with enough probes the sender is still at work when the
 	// listening budget (timeout + sum of the send delays) runs out
 	SendLagNs int64 `json:"send_lag_ns,omitempty"`
@@ -55,6 +61,9 @@ type scriptDriver struct {
 	sends    []scriptRet // d.TTL = ttl
 	returned []scriptRet
 	sendLag  time.Duration // virtual duration of every SendProbe call
+	realRTT  bool
+	slowTTL  int
+	slowLag  time.Duration
 	limit    time.Duration // virtual-time watchdog
 	overrun  bool
 }
@@ -73,10 +82,14 @@ func (s *scriptDriver) SendProbe(ttl uint8) error {
 		return errScriptWatchdog
 	}
 	s.sends = append(s.sends, scriptRet{time.Since(s.start), Delivery{TTL: int(ttl)}})
-	if s.sendLag > 0 {
+	lag := s.sendLag
+	if s.slowTTL != 0 && int(ttl) == s.slowTTL {
+		lag = s.slowLag
+	}
+	if lag > 0 {
 		// a send that takes time (full socket buffer, slow device): not under the driver's lock
 		s.mu.Unlock()
-		time.Sleep(s.sendLag)
+		time.Sleep(lag)
 		s.mu.Lock()
 	}
 	return nil
@@ -103,7 +116,18 @@ func (s *scriptDriver) ReceiveProbe(timeout time.Duration) (*common.ProbeRespons
 			case "badpkt":
 				return nil, &common.BadPacketError{Err: fmt.Errorf("scripted bad packet %d", d.Serial)}
 			}
-			return &common.ProbeResponse{TTL: uint8(d.TTL), IP: respAddr(d), RTT: time.Duration(d.Serial+1) * time.Microsecond, IsDest: d.Dest}, nil
+			rtt := time.Duration(d.Serial+1) * time.Microsecond
+			if s.realRTT {
+				s.mu.Lock()
+				for _, sd := range s.sends {
+					if sd.d.TTL == d.TTL && now >= sd.at {
+						rtt = now - sd.at
+						break
+					}
+				}
+				s.mu.Unlock()
+			}
+			return &common.ProbeResponse{TTL: uint8(d.TTL), IP: respAddr(d), RTT: rtt, IsDest: d.Dest}, nil
 		}
 		wait := time.Until(deadline)
 		if s.next < len(s.dl) {
@@ -142,7 +166,7 @@ func runEngine(t *testing.T, c *EngineCase) *engineOutcome {
 			}
 		}()
 		synctest.Test(t, func(t *testing.T) {
-			drv := &scriptDriver{parallel: c.Engine == "parallel", start: time.Now(), dl: dl, sendLag: time.Duration(c.SendLagNs)}
+			drv := &scriptDriver{parallel: c.Engine == "parallel", start: time.Now(), dl: dl, sendLag: time.Duration(c.SendLagNs), realRTT: c.RealRTT, slowTTL: c.SlowTTL, slowLag: time.Duration(c.SlowNs)}
 			nn := time.Duration(c.MaxTTL - c.MinTTL + 1)
 			drv.limit = 3*(nn*time.Duration(c.TimeoutNs+c.PollNs+c.DelayNs+c.SendLagNs)) + time.Second
 			out.drv = drv
@@ -407,6 +431,7 @@ func genEngineCase(t *rapid.T, engine string) *EngineCase {
 	if c.Engine == "parallel" {
 		c.SendLagNs = oneOf(t, "send_lag", int64(0), 0, 0, 1000, c.TimeoutNs/int64(n), 2*c.TimeoutNs/int64(n)+1)
 	}
+	c.RealRTT = oneOf(t, "real_rtt", false, false, true)
 	nd := rapid.IntRange(0, min(6*n, 60)).Draw(t, "n_deliveries")
 	for i := 0; i < nd; i++ {
 		d := Delivery{Serial: i}
@@ -501,8 +526,17 @@ func TestC03Engine(t *testing.T) {
 // the SYN driver never does): TTLs are probed in order, each once; consecutive probes are at least the send
 // delay apart; after a destination reply has been handed to the engine at most one further probe leaves.
 func TestC06Engine(t *testing.T) {
-	rec := NewRecorder("C06", "C06Engine", "rapid: both engines driven by a scripted driver (destination replies for any probed TTL at generated instants, also late ones that arrive while a later TTL is being probed); oracle over the driver's send log: TTLs first..k in order, each once, consecutive sends >= the send delay apart, at most one send after the first destination reply was returned to the engine; non-trivial = a destination reply was returned while a later TTL was already probed")
-	RunProp(t, rec, func(rt *rapid.T) *EngineCase { return genEngineCase(rt, "") }, func(t *testing.T, c *EngineCase, rec *Recorder) []Diff {
+	rec := NewRecorder("C06", "C06Engine", "rapid: both engines driven by a scripted driver (destination replies for any probed TTL at generated instants, also late ones that arrive while a later TTL is being probed; a quarter of the parallel cases with one send that blocks for 1..10 send delays); oracle over the driver's send log: TTLs first..k in order, each once, consecutive sends >= the send delay apart, at most one send after the first destination reply was returned to the engine; non-trivial = a destination reply was returned while a later TTL was already probed")
+	RunProp(t, rec, func(rt *rapid.T) *EngineCase {
+		c := genEngineCase(rt, "")
+		// a quarter of the parallel cases: one send blocks for one to several send delays, the others return at once
+		if c.Engine == "parallel" && c.DelayNs > 0 && c.MaxTTL > c.MinTTL && oneOf(rt, "slow_send", false, false, false, true) {
+			c.SendLagNs = 0
+			c.SlowTTL = rapid.IntRange(c.MinTTL, c.MaxTTL-1).Draw(rt, "slow_ttl")
+			c.SlowNs = oneOf(rt, "slow_ns", c.DelayNs, 2*c.DelayNs+1, 7*c.DelayNs/2, 10*c.DelayNs)
+		}
+		return c
+	}, func(t *testing.T, c *EngineCase, rec *Recorder) []Diff {
 		o := runEngine(t, c)
 		var ds []Diff
 		add := func(sig, f string, a ...any) { ds = append(ds, Diff{"C06", sig, fmt.Sprintf(f, a...)}) }
